@@ -27,34 +27,27 @@ theorem recv_cases (n : Node) (f : Int) :
      | .silent => n.done.isSome = true ∧ (n.recv f).1 = n
      | .err _ => (n.recv f).1 = n) := by
   unfold Node.recv
-  by_cases hd : n.done.isSome = true
-  · simp [hd]
-  · have hdn : n.done = none := by simpa using hd
-    simp only [hd, Bool.false_eq_true, if_false]
-    by_cases h1 : (n.taproot && !n.isInit) = true
-    · simp only [h1, if_true]
-      cases hp : n.propose f with
-      | none => simp
-      | some n' =>
+  split
+  · rename_i hd; simp [hd]
+  · rename_i hd
+    have hdn : n.done = none := by simpa using hd
+    split
+    · split
+      · simp
+      · rename_i n' hp
         obtain ⟨a, b, _, _⟩ := propose_fields hp
         simp [a, b, hdn]
-    · simp only [h1, Bool.false_eq_true, if_false]
-      by_cases h2 : (n.taproot && !n.offers.contains f) = true
-      · simp [h2]
-      · simp only [h2, Bool.false_eq_true, if_false]
-        by_cases h3 : n.offers.contains f = true
-        · simp [h3, hdn]
-        · simp only [h3, Bool.false_eq_true, if_false]
-          by_cases h4 : (n.isInit && decide (calcCompromiseFee n.ideal n.last f > n.maxFee)) = true
-          · simp [h4]
-          · simp only [h4, Bool.false_eq_true, if_false]
-            cases hp : n.propose (calcCompromiseFee n.ideal n.last f) with
-            | none => simp
-            | some n' =>
+    · split
+      · simp
+      · split
+        · simp [hdn]
+        · split
+          · simp
+          · split
+            · simp
+            · rename_i n' hp
               obtain ⟨a, b, c, _⟩ := propose_fields hp
-              by_cases h5 : calcCompromiseFee n.ideal n.last f ≠ f
-              · simp [h5, a, b, c, hdn]
-              · simp [h5, a, b, hdn]
+              split <;> simp [a, b, c, hdn]
 
 /-- well-formed two-party state: one opener, same channel type on both sides, a failure leaves
     nothing in flight. -/
